@@ -681,6 +681,35 @@ def make_models():
             cases.append((none_before, NONE))
         return cases[0][1] if len(cases) == 1 and cases[0][0] is True else cases
 
+    def m_rsplit_once(ex, st, args, dest_ty, fname):
+        """str::rsplit_once(char): Some((before, after)) at the LAST occurrence, else None."""
+        s_ = sval(ex, st, args[0])
+        pat = args[1]
+        cs = str_chars(s_)
+        cases = []
+        none_after = True
+        for j in range(len(cs) - 1, -1, -1):
+            hit = _simp(cs[j] == pat) if (is_sym(cs[j]) or is_sym(pat)) else (cs[j] == pat)
+            cond = _simp(b_and(none_after, hit))
+            if cond is not False and ex.ctx.feasible(st.pc, z3bool(cond) if cond is not True else True):
+                cases.append((cond, some(("agg", (("refval", _substr(s_, 0, j)), ("refval", _substr(s_, j + 1, len(cs))))))))
+            none_after = _simp(b_and(none_after, b_not(hit)))
+            if none_after is False:
+                break
+        if none_after is not False:
+            cases.append((none_after, NONE))
+        return cases[0][1] if len(cases) == 1 and cases[0][0] is True else cases
+
+    def m_opt_map_or(ex, st, args, dest_ty, fname):
+        o, default, clos = args
+        if o[1] == "None":
+            return default
+        f = ex.closure_function(clos[1])
+        val, pan = ex.call_value(st, f, [clos, o[2][0]])
+        if pan is not False:
+            raise ExecError("Option::map_or: closure may panic")
+        return val
+
     def m_split_collect(ex, st, args, dest_ty, fname):
         it = args[0]
         if it.done or it.left == 0:
@@ -930,6 +959,87 @@ def make_models():
     def m_clone(ex, st, args, dest_ty, fname):
         return deref_all(ex, st, args[0])
 
+    # ---- Address::from_headers executed for real: X-Forwarded-For lists (concrete header values), peer address as an opaque socket address
+    def m_split_filter_map(ex, st, args, dest_ty, fname):
+        return ("agg", (args[0], args[1]))
+
+    def m_filter_map_collect(ex, st, args, dest_ty, fname):
+        it, clos = args[0][1]
+        if not isinstance(it, SplitIt) or it.done or it.left is not None:
+            raise ExecError("filter_map over %r" % (it,))
+        s = deref_all(ex, st, it.s)
+        cs = list(str_chars(s))
+        if any(is_sym(c) for c in cs):
+            raise ExecError("X-Forwarded-For value with symbolic characters (templates keep it concrete)")
+        sep = it.sep
+        pieces, cur = [], []
+        for c in cs:
+            if c == sep:
+                pieces.append(cur)
+                cur = []
+            else:
+                cur.append(c)
+        pieces.append(cur)
+        f = ex.closure_function(clos[1])
+        out = []
+        for pc_ in pieces:
+            val, pan = ex.call_value(st, f, [("refval", clos), ("refval", mkstr(pc_))])
+            if pan is not False:
+                raise ExecError("filter_map closure may panic")
+            if val[1] == "Some":
+                out.append(val[2][0])
+        return VecM(tuple(out))
+
+    def m_ipaddr_from_str(ex, st, args, dest_ty, fname):
+        import ipaddress
+        s = deref_all(ex, st, args[0])
+        if not isinstance(s, ConcStr):
+            raise ExecError("IpAddr::from_str on a symbolic string")
+        t = s.s
+        err = enum("Err", ("opaque", "AddrParseError"))
+        if "%" in t or t != t.strip() or not t:
+            return err
+        try:
+            a = ipaddress.ip_address(t)
+        except ValueError:
+            return err
+        return enum("Ok", ("agg", (("opaque", "ip:" + a.compressed),)))
+
+    def m_vec_is_empty(ex, st, args, dest_ty, fname):
+        return len(elems(ex, st, args[0])) == 0
+
+    def m_slice_last(ex, st, args, dest_ty, fname):
+        items = elems(ex, st, args[0])
+        return some(("refval", items[-1])) if items else NONE
+
+    def m_vec_remove(ex, st, args, dest_ty, fname):
+        vref = ref_to(ex, st, args[0])
+        vec = ex.deref(vref, st)
+        i = args[1]
+        if is_sym(i):
+            raise ExecError("Vec::remove with a symbolic index")
+        if i >= len(vec.items):
+            return [(True, Panic("removal index (is %d) should be < len (is %d)" % (i, len(vec.items))))]
+        ex.write_ref(st, vref, VecM(tuple(vec.items[:i]) + tuple(vec.items[i + 1:])))
+        return vec.items[i]
+
+    def m_to_socket_addrs(ex, st, args, dest_ty, fname):
+        return enum("Ok", VecM((("agg", (("opaque", "sockaddr:peer"),)),)))
+
+    def m_sockiter_next(ex, st, args, dest_ty, fname):
+        r = ref_to(ex, st, args[0])
+        it = ex.deref(r, st)
+        if not it.items:
+            return NONE
+        ex.write_ref(st, r, VecM(tuple(it.items[1:])))
+        return some(it.items[0])
+
+    def m_sockaddr_ip(ex, st, args, dest_ty, fname):
+        return ("agg", (("opaque", "ip:peer"),))
+
+    def m_sockaddr_port(ex, st, args, dest_ty, fname):
+        return 4000
+
     def m_address_from_headers(ex, st, args, dest_ty, fname):
         # modelled, not executed: templates carry no X-Forwarded-For field (asserted by the spec), so the address is the peer's
         hs = deref_all(ex, st, args[0])
@@ -992,6 +1102,8 @@ def make_models():
         M(r"^core::str::<impl str>::trim_end$", m_trim_end),
         M(r"^core::str::<impl str>::parse::<usize>$", m_parse_usize),
         M(r"^core::str::<impl str>::split_once::<(&str|char)>$", m_split_once),
+        M(r"^core::str::<impl str>::rsplit_once::<char>$", m_rsplit_once),
+        M(r"^Option::<\(&str, &str\)>::map_or::<", m_opt_map_or),
         M(r"^core::str::<impl str>::parse::<u16>$", parse_unsigned(16)),
         M(r"^core::num::<impl usize>::from_str_radix$", m_from_str_radix16),
         M(r"^<std::str::SplitN<'_, char> as Iterator>::collect::<Vec<&str>>$", m_split_collect),
@@ -1009,7 +1121,7 @@ def make_models():
         M(r"^<Option<.*> as FromResidual<Option<Infallible>>>::from_residual$", m_opt_from_residual),
         M(r"^Result::<.*>::map_err::<ResponseError, ", m_map_err),
         M(r"^<&?str as PartialEq(<&?str>)?>::eq$", m_str_eq),
-        M(r"^<String as PartialEq(<&?str>|<String>)?>::eq$", m_string_eq),
+        M(r"^<&?String as PartialEq(<&?str>|<&?String>)?>::eq$", m_string_eq),
         M(r"^core::str::<impl str>::len$", m_str_len),
         M(r"^(String|core::str::<impl str>)::is_empty$", m_str_is_empty),
         M(r"^String::len$", m_str_len),
@@ -1032,7 +1144,16 @@ def make_models():
         M(r"^core::slice::<impl \[Header\]>::iter$", m_slice_iter),
         M(r"^<std::slice::Iter<'_, Header> as Iterator>::find::<", m_iter_find),
         M(r"^<HeaderType as Clone>::clone$", m_clone),
-        M(r"^Address::from_headers::<", m_address_from_headers),
+        M(r"^<std::str::Split<'_, char> as Iterator>::filter_map::<IpAddr, ", m_split_filter_map),
+        M(r"^<FilterMap<std::str::Split<'_, char>, .*> as Iterator>::collect::<Vec<IpAddr>>$", m_filter_map_collect),
+        M(r"^<IpAddr as FromStr>::from_str$", m_ipaddr_from_str),
+        M(r"^Vec::<IpAddr>::is_empty$", m_vec_is_empty),
+        M(r"^core::slice::<impl \[IpAddr\]>::last$", m_slice_last),
+        M(r"^Vec::<IpAddr>::remove$", m_vec_remove),
+        M(r"^<(impl ToSocketAddrs|std::net::SocketAddr|T) as ToSocketAddrs>::to_socket_addrs$", m_to_socket_addrs),
+        M(r"^<<(impl ToSocketAddrs|std::net::SocketAddr|T) as ToSocketAddrs>::Iter as Iterator>::next$", m_sockiter_next),
+        M(r"^std::net::SocketAddr::ip$", m_sockaddr_ip),
+        M(r"^std::net::SocketAddr::port$", m_sockaddr_port),
         M(r"^Result::<.*>::Ok$", m_ctor("Ok")),
         M(r"^Result::<.*>::Err$", m_ctor("Err")),
     ]
